@@ -189,6 +189,21 @@ def c07_shape(src, names, seed=0):
     return {"expression": expr, "violates": False, "tried": len(combos)}
 
 
+def c07_nested(expr, want):
+    from flow.record import RecordDescriptor
+    from flow.record.selector import CompiledSelector, Selector
+
+    A = RecordDescriptor("c07/na", [("string", "s")])
+    b = RecordDescriptor("c07/nb", [("string", "t"), ("record", "sub"), ("record[]", "subs")])(t="y", sub=A(s="x"), subs=[A(s="z")])
+    out = []
+    for cls in (Selector, CompiledSelector):
+        try:
+            out.append(bool(cls(expr).match(b)))
+        except Exception as e:
+            out.append("raise " + type(e).__name__)
+    return {"violates": out != [want, want], "detail": None if out == [want, want] else f"{expr!r} on a record holding nested records: interpreted / compiled give {out}, the documented answer is {want}"}
+
+
 def c07_grouped(expr, want):
     from flow.record import GroupedRecord, RecordDescriptor
     from flow.record.selector import CompiledSelector, Selector
@@ -299,4 +314,4 @@ def c07_differential(seed, n):
     return {"violates": False, "cases": cases}
 
 
-CALLS = {"c07_grouped": c07_grouped, "c07_eval": c07_eval, "c07_expr": c07_expr, "c07_shape": c07_shape, "c07_reject": c07_reject, "c07_table": c07_table, "c07_sequence": c07_sequence, "c07_differential": c07_differential}
+CALLS = {"c07_nested": c07_nested, "c07_grouped": c07_grouped, "c07_eval": c07_eval, "c07_expr": c07_expr, "c07_shape": c07_shape, "c07_reject": c07_reject, "c07_table": c07_table, "c07_sequence": c07_sequence, "c07_differential": c07_differential}
